@@ -17,6 +17,11 @@ LAZY_SOURCES = [
     ("vyxal/helpers.py::scanl", ["vector"], set()),
     ("vyxal/elements.py::vy_zip", ["lhs", "rhs"], set()),
     ("vyxal/elements.py::interleave", ["lhs", "rhs"], {"''.join(gen())"}),  # two strings: finite, joined
+    ("vyxal/helpers.py::concat", ["vec1", "vec2"], set()),
+    ("vyxal/elements.py::all_less_than_increasing", ["lhs"], set()),
+    ("vyxal/elements.py::insert_or_map_nth", ["lhs"], {"lhs[:int(rhs)]", "lhs[int(rhs):]"}),  # both in the branch `vy_type(lhs) is str`
+    # split_keep / wrap (function overloads) carry yield-point contracts too; their other overloads split finite values
+    # and do force them, and this analysis is per function, not per overload: no source-not-forced obligation for them
 ]
 
 
@@ -73,10 +78,10 @@ def forcing_uses(fnode, sources, allowed):
 
 class C14(Prop):
     id = "C14"
-    contract_modules = ["lazylist", "laziness"]
+    contract_modules = ["lazylist", "laziness", "laziness2", "laziness3"]
     level = "proof"
     trusted_base = ["CPython semantics of the subset (DESIGN 2.2)", "z3 5.1 / cvc5 1.0.3 (unsat answers)", "vyxalify is the identity on Vyxal values", "laziness of C iterators (map, filter, enumerate, tee, zip_longest) is not modelled"]
-    paper_steps = ["the deductive core is the accessor layer every transformation goes through: has_ind / __getitem__ / __bool__ / __iter__ pull exactly max(0, needed - cached) items (obligations C14-*); six generator transformations (map, deltas, prefixes, cumulative reduction, zip, interleave) carry a yield-point contract: when item j is yielded at most j+1 (resp. j+2) source items have been consumed (at-yield obligations), and the source parameter flows only into non-forcing calls and the generator's own `for` (obligations C14/source-not-forced[*]); all other element-level transformations are covered by the bounded stand-in only and are NOT counted as proved"]
+    paper_steps = ["the deductive core is the accessor layer every transformation goes through: has_ind / __getitem__ / __bool__ / __iter__ pull exactly max(0, needed - cached) items (obligations C14-*); fourteen generator transformations (map, deltas, prefixes, cumulative reduction, zip, interleave; append / prepend = concat, take-while-less, insert at a position, map every n-th item, map every second item in both of its elements, chunks of length n, windows of length n) carry a yield-point contract: when item j is yielded at most j+1 (resp. j+2) source items have been consumed (at-yield obligations), and the source parameter flows only into non-forcing calls and the generator's own `for` (obligations C14/source-not-forced[*]); all other element-level transformations are covered by the bounded stand-in only and are NOT counted as proved"]
 
     def wants(self, name):
         return "C12-" not in name
